@@ -13,7 +13,7 @@ import json
 from harness import core
 
 
-def _run(ctx, label, generate, module, rel_file, more=()):
+def _run(ctx, label, generate, module, rel_file, more=(), validate=None, driver=None):
     try:
         rep = generate()
     except Exception as e:  # noqa: BLE001 - unexpected shape of the source
@@ -41,6 +41,16 @@ def _run(ctx, label, generate, module, rel_file, more=()):
     ctx.checker_cmd = ((prev_cmd or "") + " ; layer 3: python -m harness.extract.%s_src && lake build %s"
                        % (label, module))
     ctx.count("layer3:%s:tie_theorems_checked" % label)
+    if validate is not None:
+        # translation validation: the generated Lean functions (compiled driver) against the real methods
+        built, log = core.lake_build([driver])
+        if not built:
+            ctx.broke("lake build %s (driver of the translated functions)" % driver, log)
+        else:
+            try:
+                validate(ctx, rep, ctx.pick(50, 400))
+            except Exception as e:  # noqa: BLE001 - the real classes no longer have the shape the schema describes
+                ctx.broke("translation validation (%s)" % label, "%s: %s" % (type(e).__name__, e))
     return ok
 
 
@@ -48,21 +58,43 @@ def emission_tie(ctx):
     from harness.extract import emission_src
     return _run(ctx, "emission", emission_src.generate, "LdarModel.Props.EmissionTie",
                 "LdarModel/Props/EmissionTie.lean",
-                more=[("LdarModel.Props.EmissionOnSource", "LdarModel/Props/EmissionOnSource.lean")])
+                more=[("LdarModel.Props.EmissionOnSource", "LdarModel/Props/EmissionOnSource.lean")],
+                validate=_emission_validate, driver="drv_emission_src")
+
+
+def _emission_validate(ctx, rep, n):
+    from harness.adapters import src_validate
+    src_validate.emission_validate(ctx, rep, n)
 
 
 def crew_tie(ctx):
     from harness.extract import crew_src
-    return _run(ctx, "crew", crew_src.generate, "LdarModel.Props.CrewTie", "LdarModel/Props/CrewTie.lean")
+    return _run(ctx, "crew", crew_src.generate, "LdarModel.Props.CrewTie", "LdarModel/Props/CrewTie.lean",
+                validate=_crew_validate, driver="drv_crew_src")
+
+
+def _crew_validate(ctx, rep, n):
+    from harness.adapters import src_validate
+    src_validate.crew_validate(ctx, rep, n)
 
 
 def planner_tie(ctx):
     from harness.extract import planner_src
     return _run(ctx, "planner", planner_src.generate, "LdarModel.Props.PlannerTie",
-                "LdarModel/Props/PlannerTie.lean")
+                "LdarModel/Props/PlannerTie.lean", validate=_planner_validate, driver="drv_planner_src")
+
+
+def _planner_validate(ctx, rep, n):
+    from harness.adapters import src_validate
+    src_validate.planner_validate(ctx, rep, n)
 
 
 def followup_tie(ctx):
     from harness.extract import followup_src
     return _run(ctx, "followup", followup_src.generate, "LdarModel.Props.FollowUpTie",
-                "LdarModel/Props/FollowUpTie.lean")
+                "LdarModel/Props/FollowUpTie.lean", validate=_followup_validate, driver="drv_followup_src")
+
+
+def _followup_validate(ctx, rep, n):
+    from harness.adapters import src_validate
+    src_validate.followup_validate(ctx, rep, n)
